@@ -8,7 +8,8 @@
    and that `rep` are the (raw, storage) pairs handed out by NextID = the NewIDs reported to the client.
    `w_log w` are the IDs recorded in the workspace's log (new CUD rows and argument-tree rows).
 
-   The theorems are about the code after the repairs of F12 (adba86208), F41 (2dce4071c) and F42 (cf81abbbf); the
+   The theorems are about the code after the repairs of F12 (adba86208), F41 (2dce4071c), F42 (cf81abbbf) and F43
+   (d9932b09c); the
    last section keeps, as lemmas about the model variants selected by explicit flags, why each repair was needed.
 
    The only hypotheses left:
@@ -17,7 +18,8 @@
                      UpdateOnSync does (`generated_ids_are_user_ids_unbounded_refuted`).  For one event the same
                      condition is `room 0 g rows`.
      singles_ok h    singleton IDs supplied by the registry lie in the singleton range (C10's subject)
-   and, for `stored_ids_distinct` only, `explicit_above_singletons` / `explicit_below` (see there; open finding F43) *)
+   and, for `stored_ids_distinct` / `log_ids_distinct`, `explicit_above_singletons` (`explicit_apart`) and `hist_fresh`
+   (see there; F43 fixed by d9932b09c, F44 open, F45 triaged) *)
 From Coq Require Import List NArith Lia.
 From V Require Import Lib.Check Gen.Params C04_RecordIDs.Model C04_RecordIDs.Proofs C04_RecordIDs.Link.
 Import ListNotations.
@@ -36,6 +38,8 @@ Proof. exact layout_singletons_reserved. Qed.
 Lemma arg_pass_syncs : c04_arg_updates_on_sync = true.
 Proof. reflexivity. Qed.
 Lemma plans_shared : c04_plans_shared = true.
+Proof. reflexivity. Qed.
+Lemma sync_prepass : c04_sync_prepass = true.
 Proof. reflexivity. Qed.
 Lemma update_on_sync_guarded : c04_update_on_sync_guarded = true.
 Proof. reflexivity. Qed.
@@ -57,16 +61,22 @@ Proof.
   exact (conj F (conj U (conj (user_not_raw x F) (conj (user_not_reserved x F) (user_not_null x F))))).
 Qed.
 
-(* `bounded` cannot be dropped, with or without the guard in UpdateOnSync: NextID itself wraps *)
+(* `bounded` cannot be dropped while explicit IDs may be as large as MaxUint64-1 (F44): NextID itself wraps, and a
+   generated ID that looks raw is even rewritten through the plan.  With the proposed bound MaxRecordID = MaxInt64 on
+   explicit IDs the hypothesis only says that fewer than 2^63 rows were ever created. *)
 Theorem generated_ids_are_user_ids_unbounded_refuted :
+  c04_max_record_id = 18446744073709551615 ->   (* validation puts no upper bound on explicit IDs: finding F44 *)
   exists h ws ev w' ev' rep, singles_ok (h ++ [IEvent ws ev])
     /\ step_event (run st_init h ws) ev = (w', Accepted ev' rep)
     /\ exists x, In x (map snd rep) /\ x = 0.
 Proof.
-  exists [IEvent 1 (mkEv true [] [mkRow 18446744073709551614 0 [0; 0] 0] [])], 1,
-         (mkEv false [] [mkRow 7 0 [0; 0] 0; mkRow 1 0 [7; 0] 0] []).
-  eexists. eexists. eexists. split; [apply singles_okb_sound; reflexivity|].
-  split; [vm_compute; reflexivity|]. exists 0. split; [right; left; reflexivity|reflexivity].
+  (* one script for both worlds: with MaxRecordID checked by validation the premise is absurd *)
+  intros H. first
+  [ exfalso; vm_compute in H; discriminate H
+  | exists [IEvent 1 (mkEv true [] [mkRow 18446744073709551614 0 [0; 0] 0] [])], 1,
+           (mkEv false [] [mkRow 7 0 [0; 0] 0; mkRow 1 0 [7; 0] 0] []);
+    eexists; eexists; eexists; split; [apply singles_okb_sound; reflexivity|];
+    split; [vm_compute; reflexivity|]; exists 0; split; [right; left; reflexivity|reflexivity] ].
 Qed.
 
 (* the IDs of one event are handed out in strictly increasing order, starting at the generator's value *)
@@ -131,6 +141,37 @@ Proof.
     split; [apply explicit_above_singletonsb_sound; reflexivity|];
     split; [vm_compute; reflexivity|];
     intros ND; vm_compute in ND; inversion ND as [|? ? NI _]; apply NI; left; reflexivity ].
+Qed.
+
+(* no two rows in a workspace's log share a storage ID - whatever mixture of new and synced events, workspaces and
+   restarts.  Two things an arriving event can bring that the generator cannot repair are assumed away by
+   `hist_fresh` (Link.v): an explicit ID of a synced event that the workspace already stored (the system does not
+   check explicit IDs against its log before writing it - see findings/C04/F45.md; IRecords.Apply notices it only
+   under trust level 0), and a second create of a singleton whose record exists (the command processor refuses it).
+   `explicit_apart`: explicit IDs are not taken from the singleton band.  Both hypotheses are needed: *)
+Theorem log_ids_distinct :
+  forall h, bounded h -> singles_ok h -> explicit_apart h -> hist_fresh c04_arg_updates_on_sync c04_plans_shared st_init h ->
+  forall ws, NoDup (w_log (run st_init h ws)).
+Proof. intros h HB HS HX HF. exact (log_ids_distinct_proved _ _ h HB HS arg_pass_syncs sync_prepass HX HF). Qed.
+
+(* a synced create that reuses an ID the workspace issued before is accepted and logged (F45) *)
+Theorem log_ids_distinct_refuted_reused_explicit_id :
+  exists h ws, bounded h /\ singles_ok h /\ explicit_apart h /\ ~ NoDup (w_log (run st_init h ws)).
+Proof.
+  exists [IEvent 1 (mkEv false [] [mkRow 1 0 [0; 0] 0] []); IEvent 1 (mkEv true [] [mkRow 200001 0 [0; 0] 0] [])], 1.
+  split; [apply boundedb_sound; reflexivity|]. split; [apply singles_okb_sound; reflexivity|].
+  split; [apply explicit_apartb_sound; reflexivity|].
+  intros ND. vm_compute in ND. inversion ND as [|? ? NI _]. apply NI. left. reflexivity.
+Qed.
+
+(* an explicit ID from the singleton band lands on the singleton's record: excluded by `explicit_apart` alone
+   (this history is `hist_fresh` up to its last event and the singleton is created once) *)
+Theorem log_ids_distinct_refuted_explicit_singleton_id :
+  exists h ws, bounded h /\ singles_ok h /\ ~ NoDup (w_log (run st_init h ws)).
+Proof.
+  exists [IEvent 1 (mkEv false [] [mkRow 1 0 [0; 0] 65538] []); IEvent 1 (mkEv true [] [mkRow 65538 0 [0; 0] 0] [])], 1.
+  split; [apply boundedb_sound; reflexivity|]. split; [apply singles_okb_sound; reflexivity|].
+  intros ND. vm_compute in ND. inversion ND as [|? ? NI _]. apply NI. left. reflexivity.
 Qed.
 
 (* recovery: the rebuilt generator is above every ID in the log of its workspace, never below FirstUserRecordID *)
@@ -243,7 +284,8 @@ Proof. vm_compute. repeat split. Qed.
 
 Example link_nonvacuous :
   let h := ex_history ++ [IEvent 1 ex_event] in
-  explicit_apartb h = true /\ satisfies (model_trace st_init h) = true /\ agrees (model_trace st_init h) = true
+  explicit_apartb h = true /\ hist_freshb c04_arg_updates_on_sync c04_plans_shared st_init h = true
+  /\ satisfies (model_trace st_init h) = true /\ agrees (model_trace st_init h) = true
   /\ length (model_trace st_init h) = 6%nat.
 Proof. vm_compute. repeat split. Qed.
 
@@ -258,12 +300,9 @@ Example stored_ids_distinct_nonvacuous :
 Proof. vm_compute. repeat split. Qed.
 
 Example recovery_nonvacuous :
-  (* an explicit argument ID of a synced event: the live generator and the recovered one agree (F41 repaired);
-     an explicit ID of MaxUint64 leaves the generator where it was (F42 repaired) *)
+  (* an explicit argument ID of a synced event: the live generator and the recovered one agree (F41 repaired) *)
   let h := [IEvent 1 (mkEv true [mkRow 200001 0 [0; 0] 0] [] [])] in
-  let h' := [IEvent 1 (mkEv true [] [mkRow 18446744073709551615 0 [0; 0] 0] [])] in
-  boundedb h = true /\ w_next (run st_init h 1) = 200002 /\ w_next (run st_init (h ++ [IRestart]) 1) = 200002
-  /\ w_next (run st_init h' 1) = 200001 /\ w_log (run st_init h' 1) = [18446744073709551615].
+  boundedb h = true /\ w_next (run st_init h 1) = 200002 /\ w_next (run st_init (h ++ [IRestart]) 1) = 200002.
 Proof. vm_compute. repeat split. Qed.
 
 Example substitution_nonvacuous :
@@ -288,6 +327,9 @@ Print Assumptions unique_per_ws.
 Print Assumptions stored_ids_distinct.
 Print Assumptions stored_ids_distinct_with_prepass.
 Print Assumptions stored_ids_distinct_without_prepass_refuted.
+Print Assumptions log_ids_distinct.
+Print Assumptions log_ids_distinct_refuted_reused_explicit_id.
+Print Assumptions log_ids_distinct_refuted_explicit_singleton_id.
 Print Assumptions recovery_dominates_log.
 Print Assumptions substitution_consistent.
 Print Assumptions model_traces_satisfy_the_oracle.
